@@ -39,6 +39,20 @@ func (in *Interp) exactIntBits(x *Term, prec uint) bool {
 	return u != nil && uint(u.BitLen()) <= prec
 }
 
+// isIntValuedReal: the real term is structurally an integer (sums, differences and products of
+// to_real(int) and integer constants)
+func isIntValuedReal(x *Term) bool {
+	switch x.op {
+	case OConst:
+		return x.rat.IsInt()
+	case OToReal:
+		return true
+	case OIMul, OIAdd, OISub:
+		return x.sort.K == SReal && isIntValuedReal(x.args[0]) && isIntValuedReal(x.args[1])
+	}
+	return false
+}
+
 // intValuedBound: if the real term x is known to be a non-negative integer, an upper bound.
 func (in *Interp) intValuedBound(x *Term) *big.Int {
 	switch x.op {
@@ -79,6 +93,13 @@ func (in *Interp) roundReal(x *Term, prec uint, mode int) *Term {
 		return tt.Real(r)
 	}
 	zero := tt.Real(new(big.Rat))
+	if isIntValuedReal(x) {
+		// an integer of magnitude at most 2^prec is representable: no rounding
+		lim := tt.Real(new(big.Rat).SetInt(pow2(int(prec))))
+		if in.branch(tt.And(tt.RCmp(OILe, tt.RBin(OISub, zero, lim), x), tt.RCmp(OILe, x, lim))) {
+			return x
+		}
+	}
 	neg := in.branch(tt.RCmp(OILt, x, zero))
 	ax := x
 	if neg {
@@ -251,12 +272,19 @@ func init() {
 	bf("SetFloat64", func(in *Interp, fr *frame, a []Value, _ *ssa.CallCommon) Value {
 		p := a[0].(*Ptr)
 		f := in.floatAt(p)
-		v, ok := a[1].(float64)
-		if !ok {
-			panic(unsupported{"Float.SetFloat64 symbolic"})
-		}
 		if f.prec == 0 {
 			f.prec = 53
+		}
+		if sf, isSym := a[1].(*SymFloat); isSym {
+			f.t = sf.t
+			if f.prec < 53 {
+				f.t = in.roundReal(sf.t, f.prec, f.mode)
+			}
+			return setF(in, p, f)
+		}
+		v, ok := a[1].(float64)
+		if !ok {
+			panic(unsupported{"Float.SetFloat64 of non-float"})
 		}
 		r := new(big.Rat)
 		if r.SetFloat64(v) == nil {
